@@ -50,6 +50,11 @@ struct Runtime {
 };
 Runtime* g_rt = nullptr;
 thread_local int t_task = -1;  // task index of this thread, -1 outside tasks
+// > 0 while this thread runs the initialiser of a guarded function-local static (between
+// __cxa_guard_acquire returning 1 and __cxa_guard_release/abort). No preemption in there: any other
+// thread that needs the same static would block in the C++ runtime, which a serialising scheduler
+// cannot see - and C++ makes that region atomic for them anyway.
+thread_local int t_staticInit = 0;
 
 int nextLive(Runtime& rt, int from) {
   for (int k = 1; k <= rt.ntasks; k++) {
@@ -102,6 +107,8 @@ static void onGuard(uint32_t id) {
     (*rt->reports)[size_t(me)].guardSeq.push_back(id);
   if (!rt->parked)
     return;
+  if (t_staticInit > 0)
+    return;  // counted, never interrupted (see t_staticInit)
   if (rt->quantumLeft[size_t(me)] && --rt->quantumLeft[size_t(me)] == 0) {
     int back = rt->giveBackTo[size_t(me)];
     {
@@ -271,7 +278,9 @@ extern "C" void __sanitizer_cov_pcs_init(const uintptr_t* beg, const uintptr_t* 
     if (dladdr(reinterpret_cast<void*>(p[0]), &info) && info.dli_sname) {
       const char* n = info.dli_sname;
       // functions of namespace ArduinoJson (members and free functions), not harness templates
-      if (strncmp(n, "_ZN11ArduinoJson", 16) == 0 || strncmp(n, "_ZNK11ArduinoJson", 17) == 0) {
+      // (plus the one harness shim whose body is, after inlining, library code: see conc.cpp compatTask)
+      if (strncmp(n, "_ZN11ArduinoJson", 16) == 0 || strncmp(n, "_ZNK11ArduinoJson", 17) == 0 ||
+          strncmp(n, "_ZN3sim4conc10compatTask", 24) == 0) {
         sim::sched::isLibTable()[id] = 1;
         sim::sched::g_nLib++;
       }
@@ -281,4 +290,26 @@ extern "C" void __sanitizer_cov_pcs_init(const uintptr_t* beg, const uintptr_t* 
 
 extern "C" void __sanitizer_cov_trace_pc_guard(uint32_t* guard) {
   sim::sched::onGuard(*guard);
+}
+
+// ---- guarded static initialisation (linked with -Wl,--wrap=__cxa_guard_acquire,...): the real functions do
+// the work; the scheduler only learns that the calling task is inside an initialiser
+extern "C" int __real___cxa_guard_acquire(long long* g);
+extern "C" void __real___cxa_guard_release(long long* g);
+extern "C" void __real___cxa_guard_abort(long long* g);
+extern "C" int __wrap___cxa_guard_acquire(long long* g) {
+  int r = __real___cxa_guard_acquire(g);
+  if (r)
+    sim::sched::t_staticInit++;
+  return r;
+}
+extern "C" void __wrap___cxa_guard_release(long long* g) {
+  if (sim::sched::t_staticInit > 0)
+    sim::sched::t_staticInit--;
+  __real___cxa_guard_release(g);
+}
+extern "C" void __wrap___cxa_guard_abort(long long* g) {
+  if (sim::sched::t_staticInit > 0)
+    sim::sched::t_staticInit--;
+  __real___cxa_guard_abort(g);
 }
